@@ -484,3 +484,50 @@ fn c16_complex_residual_fixed_rhs_real_multiplier() {
     kani::assume(a_r[1] != 0.0 && a_r[3] != 0.0);
     complex_residual_fixed_rhs(a_r, a_i);
 }
+
+/// Complex elimination update, n = 2, checked WITHOUT solving: after factorisation the (1,1) entry
+/// must be a11 + m * a01 (complex product) for the stored multiplier m = entry (1,0) and the pivot
+/// row's a01 -- whichever of the three code branches (real / imaginary-only / general multiplier)
+/// computed it. Entries are small Gaussian integers; no pivoting ambiguity: |a00| is made maximal.
+fn complex_update_consistent(a01r: f64, a01i: f64) {
+    let (a00r, a00i) = (small(2), small(2));
+    let (a10r, a10i) = (small(2), small(2));
+    let (a11r, a11i) = (small(2), small(2));
+    kani::assume(a00r.abs() + a00i.abs() > a10r.abs() + a10i.abs()); // row 0 is the pivot row
+    let mut ar = Matrix::from_vec(2, 2, vec![a00r, a01r, a10r, a11r]);
+    let mut ai = Matrix::from_vec(2, 2, vec![a00i, a01i, a10i, a11i]);
+    let mut ip = [0usize; 2];
+    let _ = lu_decomp_complex(&mut ar, &mut ai, &mut ip);
+    assert!(ip[0] == 0);
+    let (mr, mi) = (ar[(1, 0)], ai[(1, 0)]);
+    let er = a11r + (mr * a01r - mi * a01i);
+    let ei = a11i + (mi * a01r + mr * a01i);
+    let tol = 16.0 * f64::EPSILON * (1.0 + er.abs() + ei.abs() + a11r.abs() + a11i.abs());
+    assert!((ar[(1, 1)] - er).abs() <= tol && (ai[(1, 1)] - ei).abs() <= tol, "eliminated entry is a11 + m*a01");
+    kani::cover!(true, "reached end");
+}
+
+#[kani::proof]
+#[kani::unwind(5)]
+fn c16_complex_update_imag_multiplier() {
+    let b = small(3);
+    kani::assume(b != 0.0);
+    complex_update_consistent(0.0, b);
+}
+
+#[kani::proof]
+#[kani::unwind(5)]
+fn c16_complex_update_real_multiplier() {
+    let a = small(3);
+    kani::assume(a != 0.0);
+    complex_update_consistent(a, 0.0);
+}
+
+#[kani::proof]
+#[kani::unwind(5)]
+fn c16_complex_update_general_multiplier() {
+    let a = small(2);
+    let b = small(2);
+    kani::assume(a != 0.0 && b != 0.0);
+    complex_update_consistent(a, b);
+}
